@@ -102,7 +102,10 @@ class CrashFS:
                 self.crashed = (comp, k, 'before')
                 self.loop.kill(comp)
                 raise Crash()
-            action()
+            try:
+                action()
+            except OSError:
+                pass              # the call failed and changed nothing (mkdir on an existing directory): killed right after it returned
             self.crashed = (comp, k, 'after')
             self.loop.kill(comp)
             raise Crash()
